@@ -355,6 +355,10 @@ class Form(str):
             return False
         return str.__eq__(self, other)
 
+    def __ne__(self, other):
+        # without this, str.__ne__ would be used and ignore the script
+        return not self.__eq__(other)
+
     def __hash__(self):
         return str.__hash__(self)
 
